@@ -810,6 +810,8 @@ class Client:
             "pos": 0,
         }
         self._out_packet: collections.deque[_OutPacket] = collections.deque()
+        # False between the creation of a socket and the queuing of its CONNECT packet
+        self._connect_queued = False
         self._last_msg_in = time_func()
         self._last_msg_out = time_func()
         self._reconnect_min_delay = 1
@@ -1599,6 +1601,9 @@ class Client:
                 if not self.suppress_exceptions:
                     raise
 
+        # Nothing may be written on the new socket before its CONNECT is queued
+        # (on_socket_open or another thread may call publish() in between).
+        self._connect_queued = False
         self._sock = self._create_socket()
 
         self._sock.setblocking(False)  # type: ignore[attr-defined]
@@ -2138,6 +2143,9 @@ class Client:
         Do not use if you are using `loop_start()` or `loop_forever()`."""
         if self._sock is None:
             return MQTTErrorCode.MQTT_ERR_NO_CONN
+        if not self._connect_queued:
+            # the socket exists but its CONNECT is not queued yet: it has to go out first
+            return MQTTErrorCode.MQTT_ERR_SUCCESS
 
         try:
             rc = self._packet_write()
@@ -3823,6 +3831,7 @@ class Client:
             # CONNECT must be the first packet on a connection, also when another thread (or the
             # on_socket_open callback) queued something since the socket was created
             self._out_packet.appendleft(mpkt)
+            self._connect_queued = True
         else:
             self._out_packet.append(mpkt)
 
@@ -3836,7 +3845,7 @@ class Client:
 
         # If we have an external event loop registered, use that instead
         # of calling loop_write() directly.
-        if self._thread is None and self._on_socket_register_write is None:
+        if self._thread is None and self._on_socket_register_write is None and self._connect_queued:
             if self._in_callback_mutex.acquire(False):
                 self._in_callback_mutex.release()
                 return self.loop_write()
